@@ -1,5 +1,5 @@
 From Coq Require Import ZArith List String ExtrOcamlBasic.
-From SqfVerif Require Import Ops.OpsBase Ops.Guards Ops.Dispatch.
+From SqfVerif Require Import Ops.OpsBase Ops.Guards Ops.Guards2 Ops.Dispatch.
 Extraction Language OCaml.
 Extraction "../ocaml/gen/ops_model.ml"
   Z.add Z.mul Z.opp Z.ltb Z.div Z.modulo
@@ -7,4 +7,6 @@ Extraction "../ocaml/gen/ops_model.ml"
   push_back push_back_unique append_model sort_model sort_cmp swo_check param_model params_model format_model
   to_array to_string split_string select_minmax select_random to_fixed_unary to_fixed_binary cfg_iterate
   asm_split from_sqf asm_make_array asm_call_binary from_assembly check_typeN check_type1 bom_model
+  is_matrix matrix_transpose matrix_multiply transpose_body multiply_body vec3_unary vec3_binary then_if_array
+  private_array ns_getvar ns_setvar set_marker_pos set_marker_size create_marker cfg_select callext_args
   d_nular d_unary d_binary.
